@@ -37,12 +37,24 @@ func c17Gen(r *core.Rand, dt int, plen int) ref.RTP {
 	if r.Chance(1, 2) {
 		k.PT = core.Pick(r, []byte{6, 7, 19, 25, 98, 99})
 	}
-	for j := range k.Sim {
-		switch r.Intn(4) {
-		case 0:
-			k.Sim[j] = 0
-		default:
-			k.Sim[j] = byte(r.Intn(10))<<4 | byte(r.Intn(10))
+	switch r.Intn(8) {
+	case 0: // all zero
+	case 1: // only the last digit
+		k.Sim[5] = byte(1 + r.Intn(9))
+	case 2: // non-decimal nibbles
+		copy(k.Sim[:], r.Bytes(6))
+	case 3:
+		for j := range k.Sim {
+			k.Sim[j] = 0xff
+		}
+	default:
+		for j := range k.Sim {
+			switch r.Intn(4) {
+			case 0:
+				k.Sim[j] = 0
+			default:
+				k.Sim[j] = byte(r.Intn(10))<<4 | byte(r.Intn(10))
+			}
 		}
 	}
 	k.Payload = r.Bytes(plen)
